@@ -1040,12 +1040,11 @@ func cmdReplay(path, repo string) int {
 		}
 	}
 	want = keysOf(rf.Violation, "")
-	attempts := 1
-	for _, v := range rf.Violation {
-		if v.Kind == "race" {
-			attempts = 3
-		}
-	}
+	// A replay is a function of its tape and the code - unless the code under
+	// test is itself nondeterministic (Go's map iteration order, the shadow
+	// state of the race detector): up to three attempts, the first that shows
+	// the recorded violation counts.
+	attempts := 3
 	var last *resLine
 	for a := 0; a < attempts; a++ {
 		l, err := replayTape(b, &rf, fmt.Sprintf("replay%d", a))
